@@ -168,9 +168,26 @@ func runConfig(w *emit.Writer, r drv.Rand, c config, sweep string, nPkce int) {
 				panicked = panicked || pr.Panic != ""
 				routedL[i] = emit.Bool(routed(pr))
 			}
+			// fetch exactly what is advertised: the URL minus the document's issuer
+			fetched := make([]string, nEps)
+			under := strings.TrimSuffix(d.issuer, "/")
+			for i := range fetched {
+				fetched[i] = emit.Pair(emit.None, "false")
+				if d.eps[i] == nil || !strings.HasPrefix(*d.eps[i], under+"/") {
+					continue
+				}
+				if eps[i].Kind == epURL {
+					fmt.Fprintln(os.Stderr, "absolute endpoint URL under the issuer:", *d.eps[i])
+					os.Exit(2)
+				}
+				path := strings.TrimPrefix(*d.eps[i], under)
+				pr := f.do(rt, q, http.MethodGet, path, nil, nil)
+				panicked = panicked || pr.Panic != ""
+				fetched[i] = emit.Pair(emit.Some(emit.Str(path)), emit.Bool(routed(pr)))
+			}
 			tokIss, p := f.tokenIssuer(rt, q)
 			panicked = panicked || p
-			obs := emit.Ctor("ODoc", emit.Bool(d.ok), emit.Str(d.issuer), optStrList(d.eps), emit.List(routedL), emit.OptStr(tokIss))
+			obs := emit.Ctor("ODoc", emit.Bool(d.ok), emit.Str(d.issuer), optStrList(d.eps), emit.List(routedL), emit.List(fetched), emit.OptStr(tokIss))
 			if panicked {
 				obs = "OPanic"
 			}
@@ -230,15 +247,16 @@ func runConfig(w *emit.Writer, r drv.Rand, c config, sweep string, nPkce int) {
 			}
 		}
 
-		// ---- request object, for a client of every kind
+		// ---- request object: client kind x placement of the parameters (round-robin over the 20 cells)
 		if eps[iAuth].Kind != epNil {
-			for n := 0; n < nPkce/2; n++ { // quick: 2 kinds per (configuration, router), thorough: all 4
+			for n := 0; n < nPkce; n++ {
 				k := clientKinds[roCursor%len(clientKinds)]
-				roCursor++
-				res := f.requestObjectProbe(rt, q, k, d.issuer)
-				w.Add(emit.Case{Input: emit.Ctor("IReqObj", routerCoq(rt), cc, k.coq, q.coq()),
+				pl := placements[(roCursor/len(clientKinds))%len(placements)]
+				roCursor += 1 + r.IntN(3)
+				res := f.requestObjectProbe(rt, q, k, pl, d.issuer)
+				w.Add(emit.Case{Input: emit.Ctor("IReqObj", routerCoq(rt), cc, k.coq, pl, q.coq()),
 					Observed: emit.Ctor("OReqObj", emit.Bool(d.reqParam), [...]string{"RoHonoured", "RoNotSupported", "RoOther", "RoPanic"}[res]),
-					Tags:     append([]string{"kind=reqobj", "client=" + k.auth}, base...), Human: human})
+					Tags:     append([]string{"kind=reqobj", "client=" + k.auth, "placement=" + pl}, base...), Human: human})
 			}
 		}
 	}
@@ -467,6 +485,11 @@ func main() {
 	for _, pt := range grid {
 		c := mk(pt.bits)
 		c.Eps = allEps([]int{epDefault, epCustom}[pt.paths])
+		if pt.paths == 1 { // custom: a shape per endpoint (plain, trailing slash, no leading slash, double slash, nested)
+			for j := range c.Eps {
+				c.Eps[j].Path = drv.Pick(r, customShapes[j])
+			}
+		}
 		setIssuer(&c, pt.strat)
 		runConfig(w, r, c, "grid", nPkce)
 	}
@@ -478,9 +501,9 @@ func main() {
 			case 0, 1:
 				c.Eps[j] = epSpec{Kind: epDefault, Path: defaultPaths[j]}
 			case 2:
-				c.Eps[j] = epSpec{Kind: epCustom, Path: customPaths[j]}
+				c.Eps[j] = epSpec{Kind: epCustom, Path: drv.Pick(r, customShapes[j])}
 			case 3:
-				c.Eps[j] = epSpec{Kind: epURL, Path: customPaths[j], URL: "https://edge.example.net/" + epNames[j]}
+				c.Eps[j] = epSpec{Kind: epURL, Path: drv.Pick(r, customShapes[j]), URL: "https://edge.example.net/" + epNames[j]}
 			default:
 				c.Eps[j] = epSpec{Kind: epNil}
 			}
@@ -529,7 +552,7 @@ func main() {
 	err := w.Close(emit.Meta{Property: "C19", Tier: cfg.Tier, Seed: cfg.Seed, Exhaustive: !cfg.Quick && cfg.N == 0,
 		Rule: "grid = 2^5 flags x 2^3 capabilities x {default, custom paths} x {static, host, forwarded} (thorough: all 1536 points, quick: seeded sample), " +
 			"each on both routers with a random request (Host, Forwarded) and issuer variant; for the host / forwarded strategies a sequence of 6 requests (same Host + other Forwarded, other Host + same Forwarded, the first again, no Forwarded, the first again) goes to the one provider instance, one doc case per request; mixed = random per-endpoint default/custom/URL/nil; " +
-			"per (configuration, router): 12 grant strings; PKCE cells client kind x {S256, plain, no challenge} x {VS256, VPlain, VNone, VAbsent} visited round-robin (4 per configuration in quick, 8 in thorough); request object per client kind (2 resp. 4); " +
+			"per (configuration, router): 12 grant strings; PKCE cells client kind x {S256, plain, no challenge} x {VS256, VPlain, VNone, VAbsent} visited round-robin (4 per configuration in quick, 8 in thorough); request objects over client kind x parameter placement (all outside / redirect_uri, state, scope, response_type only inside), same budget; custom endpoint paths take a random shape (trailing slash, no leading slash, double slash, nested) and every advertised URL is fetched as advertised; " +
 			"issuer strings = scheme x authority x path x query marker x fragment marker product + specials; Discover = asked x served variants. " +
 			"Non-trivial = model path class != 0 (everything but the empty-issuer reject); distinct = distinct (input, path class).",
 		Extra: map[string]any{"grid_points": len(grid), "grid_total": 256 * 2 * 3},
